@@ -9,12 +9,22 @@ alignments from /repo's C sources; (2) real typelibs are compiled by the real g-
 index path, the linear path (directory index blanked in a private copy) and the repository
 API; the Lean model is run on the same directory with the ACTUAL perfect-hash values printed
 by the driver, and the results are diffed; (3) an oracle written from the property statement
-is evaluated on the REAL results for every probe — that is the failing-input search.
+is evaluated on the REAL results for every probe — that is the failing-input search;
+(4) HISTORIES: the repository-level lookups are a state machine with three caches (info_by_gtype,
+info_by_error_domain, unknown_gtypes; Props: C14_history).  Small worlds of namespaces (with
+dependencies, shared GType names / error domains) are compiled and cdrivers/c14_history.c runs
+generated interleavings of find_by_gtype / find_by_error_domain / find_by_name probes (members and
+non-members, before and after loads) with g_irepository_load_typelib / g_irepository_require
+(flags 0 and G_IREPOSITORY_LOAD_FLAG_LAZY, lazy -> loaded transitions) in ONE process per history.
+Statement oracle at every step: the repository-level answer agrees with the typelib-level lookups
+(g_typelib_get_dir_entry_by_*) of the typelibs loaded AT THAT MOMENT; the Lean state machine
+(c14.history) is run on the same history and compared.  A failing history is shrunk.
 """
 import json
 import os
 import random
 import re
+import shutil
 import subprocess
 import time
 
@@ -472,6 +482,7 @@ class Tools(object):
     def __init__(self, ctx):
         t0 = time.time()
         b = cbuild.CBuild(os.path.join(ctx.scratch, 'cbuild')).compile_all()
+        self.cb = b
         self.compiler = b.compiler()
         self.prober = None
         self.mode = None
@@ -958,6 +969,608 @@ def neighbourhood(ctx, tools, cnt, desc, probes, dis, rng):
         cnt.hit('search:shrunk-set')
 
 
+# ---------------------------------------------------------------- histories (lookup state machine)
+LAZY = 1        # G_IREPOSITORY_LOAD_FLAG_LAZY
+# GType names a plain GObject process has registered (or registers on first use); for every other
+# valid name the driver registers a pointer type on demand
+REAL_GTYPES = ['GObject', 'GInitiallyUnowned', 'GBinding', 'GTypeModule', 'GTypePlugin', 'GParam', 'GParamInt',
+               'GParamString', 'GParamObject', 'GStrv', 'GValue', 'GClosure', 'GDate', 'GString', 'GHashTable',
+               'GArray', 'GBytes', 'GByteArray', 'GPtrArray', 'GVariant', 'GError', 'GType', 'GBoxed', 'GEnum',
+               'GFlags', 'GSignalGroup', 'GBindingGroup', 'GValueArray', 'GRegex', 'GMatchInfo', 'GDateTime',
+               'GTimeZone', 'GKeyFile', 'GMainLoop', 'GMainContext', 'GSource', 'GIOChannel', 'GThread',
+               'GChecksum', 'GOptionGroup', 'GUri', 'GTree', 'GPollFD', 'GMarkupParseContext', 'GMappedFile',
+               'GBookmarkFile', 'GPatternSpec', 'GVariantBuilder', 'GVariantDict', 'GVariantType',
+               'gchararray', 'gint', 'gboolean', 'gdouble', 'gpointer', 'GBindingFlags', 'GIOCondition',
+               'GNormalizeMode', 'GUnicodeType']
+HIST_KINDS = ('record', 'union', 'enum', 'flags', 'class', 'interface')    # registered types (no <glib:boxed>: known finding)
+REGISTERED_BT = (BT_STRUCT, BT_UNION, BT_ENUM, BT_FLAGS, BT_OBJECT, BT_INTERFACE)
+
+
+def build_world(recipe):
+    """recipe = {'wseed':..., 'nns':...}  or explicit {'namespaces': [{'ns','cprefix','deps','entries'}]}
+    -> {'namespaces': [...], 'recipe': recipe}.  Deterministic in the recipe.  Namespaces are listed so
+    that dependencies come first (a DAG)."""
+    if 'namespaces' in recipe:
+        nss = []
+        for n in recipe['namespaces']:
+            n = dict(n)
+            n.setdefault('cprefix', n['ns'])
+            n.setdefault('deps', [])
+            nss.append(n)
+        return {'namespaces': nss, 'recipe': recipe}
+    rng = random.Random(recipe['wseed'])
+    nns = recipe['nns']
+    pool = list(REAL_GTYPES)
+    rng.shuffle(pool)
+    used_g, used_d = [], []
+    nss = []
+    for k in range(nns):
+        ns = 'H' + 'abcdefghijklmnop'[k] + rng.choice(['', 'x', 'Lib', '2'])
+        cprefix = rng.choice([ns, ns, 'G', ns + ',G', 'Q' + ns, ns.upper()])
+        deps = [n['ns'] for n in nss if rng.random() < 0.3]
+        entries = []
+        names = set()
+        for i in range(rng.randint(2, 9)):
+            nm = rng.choice(vocabulary()) if rng.random() < 0.5 else rand_name(rng, 2, 10)
+            if not valid_name(nm) or nm in names:
+                nm = 'e%d' % i
+            names.add(nm)
+            r = rng.random()
+            if r < 0.15:
+                entries.append({'k': 'constant', 'name': nm})
+                continue
+            if r < 0.25:
+                entries.append({'k': 'function', 'name': nm})
+                continue
+            e = {'k': rng.choice(HIST_KINDS), 'name': nm}
+            if rng.random() < 0.85:
+                style = rng.random()
+                if style < 0.45 and pool:
+                    g = pool.pop()
+                elif style < 0.60 and used_g:
+                    g = rng.choice(used_g)                 # also described by another namespace
+                elif style < 0.85:
+                    g = cprefix.split(',')[0] + (camel(nm) or 'X')
+                else:
+                    g = rng.choice(['Other', 'Xy', 'g']) + (camel(nm) or 'X')
+                g = ''.join(c for c in g if c.isalnum() or c == '_')
+                if len(g) >= 3 and g not in [x.get('gtype') for x in entries]:
+                    e['gtype'] = g
+                    used_g.append(g)
+            if e['k'] == 'enum' and rng.random() < 0.6:
+                d = rng.choice(used_d) if (used_d and rng.random() < 0.2) else \
+                    rng.choice(['%s-%s-quark' % (ns.lower(), nm.lower()), '%s_error' % nm, 'g-io-error-quark',
+                                'q%d%d' % (k, i)])
+                if d not in [x.get('domain') for x in entries]:
+                    e['domain'] = d
+                    used_d.append(d)
+            entries.append(e)
+        nss.append({'ns': ns, 'cprefix': cprefix, 'deps': deps, 'entries': entries})
+    return {'namespaces': nss, 'recipe': recipe}
+
+
+def render_world_gir(n):
+    out = [GIR_HEAD]
+    for d in n['deps']:
+        out.append('<include name="%s" version="1.0"/>\n' % d)
+    out.append('<namespace name="%s" version="1.0" c:identifier-prefixes="%s" c:symbol-prefixes="t">\n'
+               % (n['ns'], xml_attr(n['cprefix'])))
+    for i, e in enumerate(n['entries']):
+        out.append(render_entry(e, i, False))
+    out.append('</namespace></repository>\n')
+    return ''.join(out)
+
+
+def world_truth(world):
+    """what the generated GIRs say: per namespace, the typelib-level answers by key (first matching
+    entry).  Only used when the driver cannot call the typelib-level functions (public build) and to
+    name entries."""
+    truth = {}
+    for n in world['namespaces']:
+        g, d, nm = {}, {}, {}
+        for i, e in enumerate(n['entries']):
+            nm.setdefault(e['name'], i)
+            if e.get('gtype') and KIND_BT[e['k']] in REGISTERED_BT:
+                g.setdefault(e['gtype'], i)
+            if e.get('domain') and e['k'] == 'enum':
+                d.setdefault(e['domain'], i)
+        truth[n['ns']] = {'G': g, 'D': d, 'N': nm}
+    return truth
+
+
+class HistTools(object):
+    """the history driver, built against the tree under test; falls back to the public API"""
+
+    def __init__(self, ctx, tools):
+        self.exe = None
+        self.mode = None
+        b = tools.cb
+        src = os.path.join(VERIF, 'cdrivers', 'c14_history.c')
+        for mode, flags in (('full', []), ('public', ['-DC14_PUBLIC_ONLY'])):
+            try:
+                self.exe = b.link('c14_history_' + mode, src, extra_cflags=flags)
+                self.mode = mode
+                break
+            except cbuild.CBuildError as e:
+                errs = re.findall(r'error: [^\n]*', str(e))
+                ctx.broken.append('correspondence c14.history: the typelib-level lookup functions / gitypelib-internal.h '
+                                  'no longer exist/have changed (cdrivers/c14_history.c, %s build, does not compile: %s)%s'
+                                  % (mode, '; '.join(errs[:3]) or str(e)[-300:],
+                                     '; falling back to the public build' if mode == 'full' else ''))
+        if self.exe is None:
+            raise HarnessError('no build of cdrivers/c14_history.c links against %s' % REPO)
+
+
+def compile_world(tools, ctx, world, tag):
+    workdir = os.path.join(ctx.scratch, 'world-%s' % tag)
+    os.makedirs(workdir, exist_ok=True)
+    for n in world['namespaces']:
+        with open(os.path.join(workdir, '%s-1.0.gir' % n['ns']), 'w', encoding='utf-8') as f:
+            f.write(render_world_gir(n))
+    for n in world['namespaces']:
+        gir = os.path.join(workdir, '%s-1.0.gir' % n['ns'])
+        out = os.path.join(workdir, '%s-1.0.typelib' % n['ns'])
+        try:
+            rc, so, se = cbuild.run_compiler(tools.compiler, gir, out, includedirs=[workdir], timeout=tools.timeout)
+        except subprocess.TimeoutExpired:
+            return workdir, 'g-ir-compiler did not finish on namespace %s' % n['ns']
+        if rc != 0:
+            return workdir, 'g-ir-compiler exit %d on namespace %s: %s' % (rc, n['ns'], (so + se)[-500:])
+    return workdir, None
+
+
+def closure_loads(world_by_ns, eager, lazy, ns, flags):
+    """the registrations a load / require of `ns` with `flags` performs, in order, as (ns, lazy) pairs;
+    updates the sets (get_registered_status + register_internal + load_dependencies_recurse)"""
+    regs = []
+    if flags & LAZY:
+        if ns in eager or ns in lazy:
+            return regs
+        lazy.add(ns)
+        regs.append((ns, 1))
+        return regs
+    if ns in eager:
+        return regs
+    for d in world_by_ns[ns]['deps']:
+        regs.extend(closure_loads(world_by_ns, eager, lazy, d, 0))
+    lazy.discard(ns)
+    eager.add(ns)
+    regs.append((ns, 0))
+    return regs
+
+
+def gen_history(world, rng, length):
+    """a history: list of ['G', key] / ['D', key] / ['N', ns, name] / ['L', ns, flags] / ['R', ns, flags]"""
+    nss = world['namespaces']
+    by_ns = dict((n['ns'], n) for n in nss)
+    truth = world_truth(world)
+    all_g = sorted(set(g for t in truth.values() for g in t['G']))
+    all_d = sorted(set(d for t in truth.values() for d in t['D']))
+    absent_g = [g for g in REAL_GTYPES if g not in all_g][:12] + ['HaNope', 'Zzz', 'GObjec', 'GObjectt']
+    for g in all_g[:6]:
+        absent_g.extend(m for m in mutants_of(rng, g, 'abcXYZ09_')[:3] if m not in all_g)
+    absent_d = ['nope-quark', '', 'g-io-error-quar'] + [d + 'x' for d in all_d[:3]]
+    eager, lazy = set(), set()
+    ops = []
+    asked = []
+
+    def probe_key(kind, key):
+        ops.append([kind, key])
+        if [kind, key] not in asked:
+            asked.append([kind, key])
+
+    def some_probe(ns_bias=None):
+        r = rng.random()
+        if ns_bias is not None and r < 0.75:
+            t = truth[ns_bias]
+            cands = [['G', g] for g in t['G']] + [['D', d] for d in t['D']]
+            if cands:
+                k = rng.choice(cands)
+                return probe_key(k[0], k[1])
+        if r < 0.25 and asked:
+            k = rng.choice(asked)
+            return probe_key(k[0], k[1])
+        if r < 0.60:
+            return probe_key('G', rng.choice(all_g) if (all_g and rng.random() < 0.7) else rng.choice(absent_g))
+        if r < 0.78:
+            return probe_key('D', rng.choice(all_d) if (all_d and rng.random() < 0.7) else rng.choice(absent_d))
+        loaded = sorted(eager | lazy)
+        if not loaded:
+            return probe_key('G', rng.choice(all_g or absent_g))
+        ns = rng.choice(loaded)
+        names = [e['name'] for e in by_ns[ns]['entries']]
+        nm = rng.choice(names) if rng.random() < 0.75 else rng.choice(mutants_of(rng, rng.choice(names)) + ['', 'Nope'])
+        if '\x00' in nm or ' ' in nm:
+            nm = 'Nope'
+        ops.append(['N', ns, nm])
+
+    while len(ops) < length:
+        if rng.random() < 0.30:
+            unl = [n['ns'] for n in nss if n['ns'] not in eager and n['ns'] not in lazy]
+            r = rng.random()
+            if unl and r < 0.60:
+                ns = rng.choice(unl)
+            elif lazy and r < 0.90:
+                ns = rng.choice(sorted(lazy))                  # lazy -> loaded transition (or a lazy no-op)
+            else:
+                ns = rng.choice(nss)['ns']
+            flags = LAZY if rng.random() < 0.5 else 0
+            primed = []
+            if rng.random() < 0.8:                             # ask BEFORE the load (fills the negative cache)
+                for _ in range(rng.randint(1, 3)):
+                    n0 = len(ops)
+                    some_probe(ns_bias=ns)
+                    primed.extend(ops[n0:])
+            ops.append([rng.choice(['L', 'R']), ns, flags])
+            closure_loads(by_ns, eager, lazy, ns, flags)
+            for p in primed:                                   # and AFTER it
+                ops.append(list(p))
+            if rng.random() < 0.5:
+                some_probe(ns_bias=ns)
+        else:
+            some_probe()
+    for k in asked[-12:]:
+        ops.append(list(k))
+    return ops
+
+
+def parse_answer(tok):
+    if tok == '-':
+        return None
+    if tok == 'NA':
+        return 'NA'
+    ns, _, hx = tok.partition(':')
+    return (ns, unhex(hx) if hx else '')
+
+
+def run_history(htools, world, workdir, ops, tag, timeout=60):
+    """one process: returns {'steps': [...], 'mode':..., 'end': bool, 'crash': str|None}
+    steps[i] for a probe = {'repo': None|'NA'|(ns,name), 'tl': {ns: idx}}, for a load = {'ok': bool, 'ns': [...]}"""
+    nss = [n['ns'] for n in world['namespaces']]
+    hf = os.path.join(workdir, 'history-%s.txt' % tag)
+    with open(hf, 'w') as f:
+        f.write('P %s\n' % workdir)
+        for ns in nss:
+            f.write('T %s\n' % os.path.join(workdir, '%s-1.0.typelib' % ns))
+        for op in ops:
+            if op[0] in ('G', 'D'):
+                f.write('%s %s\n' % (op[0], hexs(op[1])))
+            elif op[0] == 'N':
+                f.write('N %s %s\n' % (op[1], hexs(op[2])))
+            elif op[0] == 'L':
+                f.write('L %d %d\n' % (nss.index(op[1]), op[2]))
+            else:
+                f.write('R %s 1.0 %d\n' % (op[1], op[2]))
+    try:
+        p = subprocess.run([htools.exe, hf], stdout=subprocess.PIPE, stderr=subprocess.PIPE, timeout=timeout,
+                           env=dict(os.environ, G_DEBUG='', GI_TYPELIB_PATH=workdir))
+    except subprocess.TimeoutExpired:
+        return {'steps': [], 'end': False, 'crash': 'c14_history did not finish within %d s' % timeout, 'mode': None}
+    out = p.stdout.decode('utf-8', 'surrogateescape').split('\n')
+    res = {'steps': [], 'end': False, 'crash': None, 'mode': None}
+    cur = None
+    for line in out:
+        f = line.split(' ')
+        t = f[0]
+        if t == 'MODE':
+            res['mode'] = f[1]
+        elif t in ('G', 'D', 'N') and len(f) >= 2:
+            res['steps'].append({'repo': parse_answer(f[1]),
+                                 'tl': dict((ns, int(x)) for ns, x in zip(nss, f[2:]))})
+        elif t in ('L', 'R') and len(f) >= 2:
+            cur = {'ok': f[1] == 'ok', 'detail': ' '.join(f[1:]), 'ns': None}
+            res['steps'].append(cur)
+        elif t == 'NS' and cur is not None:
+            cur['ns'] = sorted(x for x in f[1:] if x)
+        elif t == 'END':
+            res['end'] = True
+    if p.returncode != 0 or not res['end']:
+        res['crash'] = 'c14_history exit %d after %d of %d calls: %s' % (
+            p.returncode, len(res['steps']), len(ops), p.stderr.decode('utf-8', 'replace')[-400:])
+    return res
+
+
+def judge_history(world, ops, real):
+    """the statement oracle on the REAL answers of one history.  Returns (failures, stats, loaded_trace) where
+    failures = [(step index, kind, text)]; loaded_trace[i] = namespaces loaded before call i."""
+    by_ns = dict((n['ns'], n) for n in world['namespaces'])
+    truth = world_truth(world)
+    eager, lazy = set(), set()
+    fails, stats, notes = [], {}, []
+
+    def hit(k):
+        stats[k] = stats.get(k, 0) + 1
+    override = None          # the loaded set reported by the library, once it differed from the expected one
+    asked_before = set()
+    for i, op in enumerate(ops):
+        if i >= len(real['steps']):
+            break
+        st = real['steps'][i]
+        loaded = set(override) if override is not None else (eager | lazy)
+        if op[0] in ('L', 'R'):
+            before = set(eager | lazy)
+            was_lazy = op[1] in lazy
+            regs = closure_loads(by_ns, eager, lazy, op[1], op[2])
+            hit('load:%s:%s%s' % ('load_typelib' if op[0] == 'L' else 'require', 'lazy' if op[2] & LAZY else 'eager',
+                                   ':no-op(already registered)' if not regs else
+                                   (':lazy->loaded transition' if (was_lazy and not (op[2] & LAZY)) else '')))
+            if len(regs) > 1:
+                hit('load:with-dependencies')
+            if any(l == 0 and r != op[1] and r in before for r, l in regs):
+                hit('load:dependency-transition(lazy->loaded)')
+            if not st.get('ok'):
+                notes.append('call %d %r failed: %s' % (i, op, st.get('detail')))
+            if st.get('ns') is not None and set(st['ns']) != (eager | lazy):
+                notes.append('after call %d %r the library reports the namespaces %r loaded, expected %r'
+                             % (i, op, st['ns'], sorted(eager | lazy)))
+                override = set(st['ns'])
+            elif st.get('ns') is not None:
+                override = None
+            continue
+        kind = op[0]
+        r = st['repo']
+        if kind == 'N':
+            ns, key = op[1], op[2]
+            if ns not in loaded:
+                hit('name:namespace-not-loaded(outside)')
+                continue
+            t = st['tl'].get(ns, -8)
+            if t == -8:
+                t = truth[ns]['N'].get(key, -1)
+            hit('name:member' if t >= 0 else 'name:absent')
+            names = [e['name'] for e in by_ns[ns]['entries']]
+            if r is None:
+                if t >= 0:
+                    fails.append((i, kind, 'g_irepository_find_by_name(%r, %r) = NULL although g_typelib_get_dir_entry_by_name '
+                                           'on the loaded typelib finds entry #%d' % (ns, key, t)))
+            elif r == 'NA' or r[0] != ns or r[1] != key or t < 0 or names.index(r[1]) != t:
+                fails.append((i, kind, 'g_irepository_find_by_name(%r, %r) = %r but the typelib-level lookup answers %s'
+                                       % (ns, key, r, '#%d' % t if t >= 0 else 'NULL')))
+            continue
+        key = op[1]
+        if r == 'NA':
+            hit('gtype:no-GType-of-that-name(outside)')
+            continue
+        want = {}
+        for ns in sorted(loaded):
+            t = st['tl'].get(ns, -8)
+            if t == -8:
+                t = truth[ns][kind].get(key, -1)
+            if t >= 0:
+                want[ns] = t
+        label = 'gtype' if kind == 'G' else 'domain'
+        fn = 'g_irepository_find_by_gtype' if kind == 'G' else 'g_irepository_find_by_error_domain'
+        tlfn = 'g_typelib_get_dir_entry_by_gtype_name' if kind == 'G' else 'g_typelib_get_dir_entry_by_error_domain'
+        first = (kind, key) not in asked_before
+        asked_before.add((kind, key))
+        hit('%s:%s:%s' % (label, 'present' if want else 'absent', 'first-ask' if first else 're-ask'))
+        if len(want) > 1:
+            hit('%s:in-several-loaded-typelibs' % label)
+        if want and not first:
+            if any(ns in lazy for ns in want):
+                hit('%s:re-ask-after-miss-or-hit:in-lazy-typelib' % label)
+        if r is None:
+            if want:
+                ns0 = sorted(want)[0]
+                fails.append((i, kind, '%s(%r) = NULL although %s on the loaded typelib %s (%s) finds entry #%d (%s); '
+                                       'namespaces loaded at that moment: %s'
+                                       % (fn, key, tlfn, ns0, 'lazily loaded' if ns0 in lazy else 'loaded', want[ns0],
+                                          by_ns[ns0]['entries'][want[ns0]]['name'], sorted(loaded))))
+        else:
+            ns, name = r
+            names = [e['name'] for e in by_ns[ns]['entries']] if ns in by_ns else []
+            idx = names.index(name) if name in names else None
+            if ns not in want or want[ns] != idx:
+                fails.append((i, kind, '%s(%r) = %s.%s (entry #%s) but %s answers %s on the typelibs loaded at that moment (%s)'
+                                       % (fn, key, ns, name, idx, tlfn,
+                                          ', '.join('%s:#%d' % kv for kv in sorted(want.items())) or 'NULL everywhere',
+                                          sorted(loaded))))
+    return fails, stats, notes
+
+
+def model_history(ctx, world, ops, real, tl_dumps):
+    """the Lean state machine on the same history -> list of (real step index, model answer, tables)"""
+    nss = [n['ns'] for n in world['namespaces']]
+    by_ns = dict((n['ns'], n) for n in world['namespaces'])
+    libs = []
+    for n in world['namespaces']:
+        ents = []
+        for e in n['entries']:
+            bt = KIND_BT[e['k']]
+            g = e.get('gtype') if bt in REGISTERED_BT + (BT_BOXED,) else None
+            d = e.get('domain') if bt in (BT_ENUM, BT_FLAGS) else None
+            ents.append([e['name'], 1, bt] if g is None and d is None else [e['name'], 1, bt, g, d])
+        libs.append({'ns': n['ns'], 'entries': ents, 'nlocal': len(ents), 'cprefix': n['cprefix']})
+    eager, lazy = set(), set()
+    mops, owner = [], []
+    for i, op in enumerate(ops):
+        if op[0] in ('L', 'R'):
+            for ns, lz in closure_loads(by_ns, eager, lazy, op[1], op[2]):
+                mops.append(['l', nss.index(ns), lz])
+                owner.append(i)
+        elif op[0] == 'N':
+            if op[1] in eager or op[1] in lazy:
+                mops.append(['n', op[1], op[2]])
+                owner.append(i)
+        else:
+            mops.append(['g' if op[0] == 'G' else 'd', op[1]])
+            owner.append(i)
+    out = ctx.driver.call('c14.history', libs=libs, ops=mops)
+    return list(zip(owner, mops, out))
+
+
+def compare_model(world, ops, real, model):
+    """real answers vs the Lean state machine; keys present in several loaded typelibs depend on the hash
+    table order (a parameter of the model) and are compared for membership only (by the oracle)"""
+    by_ns = dict((n['ns'], n) for n in world['namespaces'])
+    truth = world_truth(world)
+    diffs = []
+    compared = 0
+    for i, mop, m in model:
+        if m == 'abort':
+            diffs.append('model aborted at call %d %r' % (i, ops[i]))
+            break
+        if i >= len(real['steps']) or mop[0] == 'l':
+            if mop[0] == 'l' and i < len(real['steps']) and real['steps'][i].get('ns') is not None:
+                # tables after the LAST registration of this call
+                pass
+            continue
+        st = real['steps'][i]
+        r = st['repo']
+        if r == 'NA':
+            continue
+        ans, eager, lazy, _nunknown = m
+        if mop[0] in ('g', 'd'):
+            kind = 'G' if mop[0] == 'g' else 'D'
+            holders = [ns for ns in eager + lazy if truth[ns][kind].get(mop[1], -1) >= 0]
+            if len(holders) > 1:
+                continue
+        if r is None:
+            rr = [None, -1]
+        else:
+            names = [e['name'] for e in by_ns[r[0]]['entries']] if r[0] in by_ns else []
+            rr = [r[0], names.index(r[1]) if r[1] in names else -4]
+        compared += 1
+        if rr != ans:
+            diffs.append('call %d %r: real %r model %r (tables of the model: loaded %r lazy %r)' % (i, ops[i], rr, ans, eager, lazy))
+    # the tables: after every load call the namespaces of the model = the namespaces the library reports
+    last = {}
+    for i, mop, m in model:
+        if mop[0] == 'l' and m != 'abort':
+            last[i] = sorted(m[1] + m[2])
+    for i, nsl in last.items():
+        if i < len(real['steps']) and real['steps'][i].get('ns') is not None and real['steps'][i]['ns'] != nsl:
+            diffs.append('call %d %r: the library reports %r loaded, the model %r' % (i, ops[i], real['steps'][i]['ns'], nsl))
+    return diffs, compared
+
+
+def shrink_history(htools, world, workdir, ops, fail, budget=80):
+    """greedy one-call deletion keeping 'the LAST call fails the oracle in the same way'"""
+    i, kind, _ = fail
+    cur = [list(o) for o in ops[:i + 1]]
+    runs = 0
+
+    def still_fails(cand):
+        real = run_history(htools, world, workdir, cand, 'shrink')
+        if real['crash']:
+            return False
+        fails, _s, _n = judge_history(world, cand, real)
+        return any(f[0] == len(cand) - 1 and f[1] == kind for f in fails)
+    changed = True
+    while changed and runs < budget:
+        changed = False
+        j = len(cur) - 2
+        while j >= 0 and runs < budget:
+            cand = cur[:j] + cur[j + 1:]
+            runs += 1
+            if still_fails(cand):
+                cur = cand
+                changed = True
+            j -= 1
+    return cur
+
+
+def world_key(recipe):
+    if 'namespaces' in recipe:
+        return {'explicit': [[n['ns'], n.get('cprefix'), n.get('deps', []),
+                              [[e['k'], e['name'], e.get('gtype'), e.get('domain')] for e in n['entries']]]
+                             for n in recipe['namespaces']]}
+    return {k: recipe[k] for k in sorted(recipe)}
+
+
+def check_history(ctx, htools, cnt, world, workdir, ops, tag, state, samples=None):
+    """one history: real run, statement oracle, model comparison.  Returns the number of judged calls."""
+    real = run_history(htools, world, workdir, ops, tag)
+    recipe = world['recipe']
+    cnt.hit('history:run')
+    cnt.hit('history-build:' + str(real.get('mode')))
+    if real['crash']:
+        cnt.hit('history:crash')
+        cut = ops[:len(real['steps']) + 1]
+        ctx.report_failure('history:crash:' + json.dumps([world_key(recipe), cut], sort_keys=True),
+                           'the real library did not survive a history of lookups and loads: %s; calls so far: %r'
+                           % (real['crash'], cut[-6:]),
+                           {'kind': 'history', 'world': recipe, 'ops': cut})
+        return 0
+    fails, stats, notes = judge_history(world, ops, real)
+    for k, v in stats.items():
+        cnt.hit('hist:' + k, v)
+    for n in notes[:1]:
+        if state['tie_notes'] < 2:
+            state['tie_notes'] += 1
+            ctx.broken.append('tie c14.history: %s (world %r)' % (n, world_key(recipe)))
+    judged = 0
+    for i, op in enumerate(ops):
+        if op[0] in ('G', 'D', 'N') and i < len(real['steps']):
+            judged += 1
+            cnt.case(['h', op, real['steps'][i]['repo'], sorted(real['steps'][i]['tl'].items())], nontrivial=True)
+    if fails and state['reported'] < 3:
+        state['reported'] += 1
+        f = fails[0]
+        small = shrink_history(htools, world, workdir, ops, f)
+        real2 = run_history(htools, world, workdir, small, 'min')
+        fails2, _s, _n = judge_history(world, small, real2)
+        text = next((x[2] for x in fails2 if x[0] == len(small) - 1), f[2])
+        ctx.report_failure('history:%s:%s' % (f[1], json.dumps([world_key(recipe), small], sort_keys=True)),
+                           'after the calls %r: %s' % (small[:-1], text),
+                           {'kind': 'history', 'world': recipe, 'ops': small})
+    elif fails:
+        cnt.hit('history:more-failing-histories(not shrunk)')
+    # ---- the Lean state machine on the same history
+    try:
+        model = model_history(ctx, world, ops, real, None)
+        diffs, compared = compare_model(world, ops, real, model)
+        cnt.hit('hist:model-compared-calls', compared)
+        for d in diffs[:1]:
+            if state['model_diffs'] < 3:
+                state['model_diffs'] += 1
+                ctx.broken.append('correspondence c14.history differs: %s world=%r history=%r'
+                                  % (d, world_key(recipe), ops))
+    except HarnessError as e:
+        if state['model_diffs'] < 3:
+            state['model_diffs'] += 1
+            ctx.broken.append('correspondence c14.history: the model driver failed: %s' % str(e)[:300])
+    if samples is not None and len(samples) < 2:
+        samples.append({'world': world_key(recipe), 'history(first 12 calls)': ops[:12],
+                        'real(first 12)': [s.get('repo', s.get('detail')) for s in real['steps'][:12]]})
+    return judged
+
+
+def run_histories(ctx, tools, cnt, corpus_hist, samples):
+    htools = HistTools(ctx, tools)
+    state = {'reported': 0, 'tie_notes': 0, 'model_diffs': 0}
+    total = 0
+    nworlds = ctx.n(6, 60)
+    nhist = ctx.n(14, 40)
+    length = ctx.n(26, 40)
+    worlds = [dict(c) for c in corpus_hist]
+    for _ in range(nworlds):
+        worlds.append({'wseed': ctx.rng.getrandbits(32), 'nns': ctx.rng.randint(2, 6)})
+    for w, recipe in enumerate(worlds):
+        world = build_world(recipe)
+        workdir, err = compile_world(tools, ctx, world, str(w))
+        try:
+            if err:
+                cnt.hit('history:world-compile-error')
+                ctx.report_failure('history:compile:' + json.dumps(world_key(recipe), sort_keys=True),
+                                   'the real g-ir-compiler cannot compile a generated namespace: ' + err,
+                                   {'kind': 'history', 'world': recipe, 'ops': []})
+                continue
+            cnt.hit('history:worlds')
+            cnt.hit('history:namespaces', len(world['namespaces']))
+            hists = [list(h) for h in recipe.get('histories', [])]
+            hrng = random.Random(recipe.get('wseed', w) ^ 0x9e3779b9)
+            if 'wseed' in recipe or not hists:
+                for _ in range(nhist):
+                    hists.append(gen_history(world, hrng, length))
+            for k, ops in enumerate(hists):
+                total += check_history(ctx, htools, cnt, world, workdir, ops, '%d-%d' % (w, k), state, samples)
+        finally:
+            shutil.rmtree(workdir, ignore_errors=True)
+    return total
+
+
+
 # ---------------------------------------------------------------- the plan of a run
 def plan(ctx):
     rng = ctx.rng
@@ -1033,7 +1646,15 @@ def run(ctx):
     sample_cap = ctx.n(400, 1200)
     lin_budget = ctx.n(60 * 10 ** 6, 600 * 10 ** 6)
 
-    corpus = load_corpus()
+    corpus_all = load_corpus()
+    corpus = [c for c in corpus_all if 'namespaces' not in c]
+    corpus_hist = [c for c in corpus_all if 'namespaces' in c]
+    # histories first: they are cheap and the lookup state machine is where the caches live
+    t_h = time.time()
+    hist_samples = []
+    hist_evals = run_histories(ctx, tools, cnt, corpus_hist, hist_samples)
+    total += hist_evals
+    ctx.log('histories: %d judged calls in %.1fs' % (hist_evals, time.time() - t_h))
     recipes = [c for c in corpus] + plan(ctx)
     searched = 0
     for k, recipe in enumerate(recipes):
@@ -1066,11 +1687,19 @@ def run(ctx):
                 'exotic and empty strings, GType names and error domains with their mutants. One evaluation = one probe '
                 'answered by the real code through every path (index, linear, repository) and judged by the statement '
                 'oracle, and compared with the model run on the actual hash values. All probes are non-trivial (the '
-                'lookup code runs); distinct = distinct (kind, probe, entry the hash pointed at, answer).',
-        'samples': samples,
+                'lookup code runs); distinct = distinct (kind, probe, entry the hash pointed at, answer).  HISTORIES: worlds of '
+                '2-6 small namespaces (dependencies, GType names of real GObject types and generated ones, some described '
+                'by several namespaces, error domains) compiled by the real g-ir-compiler; per world generated histories '
+                '(26-40 calls, one process each) interleaving find_by_gtype / find_by_error_domain / find_by_name probes '
+                '(members, absent, re-asked) with g_irepository_load_typelib / g_irepository_require, lazy and not, '
+                'no-op reloads and lazy->loaded transitions; keys of a namespace are asked before AND after it is loaded. '
+                'One evaluation = one probe call judged against the typelib-level lookups of the typelibs loaded at that '
+                'moment and compared with the Lean state machine.',
+        'samples': samples + hist_samples,
         'distribution': cnt.counts,
-        'corpus_cases': len(corpus),
+        'corpus_cases': len(corpus_all),
         'sets': len(recipes),
+        'history_evaluations': hist_evals,
         'c_build_s': tools.build_s,
         'exhaustive': False,
         'pending_findings': [p['key'] for p in PENDING_FINDINGS],
@@ -1080,7 +1709,13 @@ def run(ctx):
         'names, which this run checked on the actual hash of every compiled typelib',
         'strings are compared as code-point lists in the model and as bytes (strcmp) in C: equivalent for valid UTF-8',
         'the caches of g_irepository_find_by_gtype / find_by_error_domain (info_by_gtype, unknown_gtypes, '
-        'info_by_error_domain) are not modelled; every probe uses a freshly registered GType',
+        'info_by_error_domain) are modelled by the state machine of C14_history and exercised by the histories; the '
+        'single-typelib probes use a freshly registered GType per probe',
+        'histories: typelibs are never unloaded and a lazy->loaded transition registers the same file again (hypothesis '
+        'Admissible of C14_history); one version per namespace; loads that fail are not generated (C17)',
+        'histories: a GType is identified with its name (real GObject types, else a pointer type registered under the '
+        'name); the set of namespaces loaded at each moment is computed from the calls made and their known dependencies '
+        'and cross-checked against g_irepository_get_loaded_namespaces',
         'g_irepository_find_by_gtype is exercised with real GTypes registered by the prober '
         '(g_pointer_type_register_static) for probes that are valid GType names; other probes only reach '
         'g_typelib_get_dir_entry_by_gtype_name',
@@ -1096,6 +1731,26 @@ def replay(ctx, rep):
     r = rep['replay']
     tools = Tools(ctx)
     cnt = Counter()
+    if r.get('kind') == 'history':
+        htools = HistTools(ctx, tools)
+        world = build_world(r['world'])
+        workdir, err = compile_world(tools, ctx, world, 'replay')
+        if err:
+            print('reproduced: the real g-ir-compiler cannot compile the world: ' + err)
+            return 1
+        real = run_history(htools, world, workdir, r['ops'], 'replay')
+        print('history: %r' % (r['ops'],))
+        for op, st in zip(r['ops'], real['steps']):
+            print('  %-40r -> %r' % (op, st.get('repo', st.get('detail'))))
+        if real['crash']:
+            print('reproduced: ' + real['crash'])
+            return 1
+        fails, _s, notes = judge_history(world, r['ops'], real)
+        for f in fails[:5]:
+            print('reproduced: call %d: %s' % (f[0], f[2]))
+        for n in notes[:3]:
+            print('note: ' + n)
+        return 1 if fails else 0
     desc = build_set(r['recipe'])
     prng = random.Random(r['recipe'].get('seed', 0) ^ 0x5bd1e995)
     probes = make_probes(desc, prng, 400, 60 * 10 ** 6)
